@@ -23,7 +23,7 @@ ENV["CARGO_TERM_COLOR"] = "never"
 
 CONC = ("hlmon", dict(runner="conc"))
 PROPS = {
-    "C01": dict(level="exploration", lanes=[CONC, ("hlmon", dict(runner="seqfam")), ("hlmon", dict(runner="ownedconc"))]),
+    "C01": dict(level="exploration", lanes=[CONC, ("hlmon", dict(runner="seqfam")), ("hlmon", dict(runner="ownedconc")), ("hlmon", dict(runner="conc_fault"))]),
     "C02": dict(level="exploration", lanes=[
         CONC, ("hlmon", dict(runner="conc_panic")), ("hlmon", dict(runner="blockfam")), ("hlmon", dict(runner="tuplefam")), ("hlmon", dict(runner="racefam")),
         ("miri", dict(runner="racefam", mode="seeds", seeds_quick=16, seeds_thorough=256, canary="canary_race")),
